@@ -36,6 +36,8 @@ func init() {
 			{ID: "R03s", Floor: 2, Doc: "a section that was written is indexed before the put reports success (= R06i)", Run: ruleR12g},
 			{ID: "R03t", Floor: 1, Doc: "the insertion index orders and equates records by digest alone: recordDigest.Less is `bytes.Compare(digest, other.digest) < 0` on every return (the tree derives equality from Less, and lookups probe with a digest-only record)", Run: ruleR03t},
 			{ID: "R03u", Floor: 1, Doc: "the sequential readers never seek backwards: no Seek(negative constant, io.SeekCurrent) in LoadIndex, Inspect, NewBlockReader, Next, SkipNext — the forward-only adapter for plain streams drops such a seek silently", Run: ruleR03u},
+			{ID: "R03x", Floor: 1, Doc: "a compact bucket built in memory is exactly width x len bytes: the buffer of a singleWidthIndex is allocated with the product of the two values stored beside it", Run: ruleR03x},
+			{ID: "R03y", Floor: 1, Doc: "the insertion index refuses no record for the length of its digest (= R11z)", Run: ruleR11z},
 			{ID: "R03v", Floor: 1, Doc: "the payload view index generation scans is the whole payload window (= R10d)", Run: ruleR10d},
 			{ID: "R03w", Floor: 1, Doc: "no reader type beside the audited ones stands between index generation and the bytes (= R16n)", Run: ruleR16n},
 			{ID: "R03g", Floor: 1, Doc: "InsertionIndex.GetAll offers every record with the key's digest", Run: ruleR03g},
@@ -356,8 +358,22 @@ func checkRecordedOffsets(c *Ctx, r *Report, fn *ssa.Function, rebase bool) {
 }
 
 func isNamed(t types.Type, pkg, name string) bool {
-	n := namedOf(t)
-	return n != nil && n.Obj().Pkg() != nil && n.Obj().Pkg().Path() == pkg && (n.Obj().Name() == name || n.Obj().Name() == curTypeName(pkg, name))
+	return typeIs(namedOf(t), pkg, name)
+}
+
+// typeIs: n is the pinned type pkg.name — under that name, under the name it was renamed to, or in
+// the package it moved to.
+func typeIs(n *types.Named, pkg, name string) bool {
+	if n == nil || n.Obj().Pkg() == nil {
+		return false
+	}
+	if n.Obj().Pkg().Path() == pkg && (n.Obj().Name() == name || n.Obj().Name() == curTypeName(pkg, name)) {
+		return true
+	}
+	if mv, ok := typeMoves[pkg+"\t"+name]; ok && n.Obj().Pkg().Path() == mv[0] && n.Obj().Name() == mv[1] {
+		return true
+	}
+	return false
 }
 
 func headerReadHere(fn *ssa.Function, base ssa.Value) bool {
@@ -795,11 +811,30 @@ func ruleR03g(c *Ctx, r *Report) {
 		return
 	}
 	key := "getall-enumerates@" + fnKey(fn)
-	if len(fn.AnonFuncs) != 1 {
+	var it *ssa.Function
+	if len(fn.AnonFuncs) == 1 {
+		it = fn.AnonFuncs[0]
+	} else {
+		// the iterator handed to the tree walk as a method value or a named function
+		eachInstr(fn, func(in ssa.Instruction) {
+			ci, ok := in.(*ssa.Call)
+			if !ok {
+				return
+			}
+			if f := calleeFunc(ci.Common()); f == nil || !strings.HasPrefix(f.Name(), "Ascend") {
+				return
+			}
+			for _, a := range ci.Common().Args {
+				if t := funcValueTarget(a); t != nil && t.Blocks != nil && t.Pkg != nil && t.Pkg.Pkg.Path() == pkgIndex {
+					it = t
+				}
+			}
+		})
+	}
+	if it == nil {
 		r.Undec(key, c.Pos(fn.Pos()), "iterator closure not found")
 		return
 	}
-	it := fn.AnonFuncs[0]
 	isDigest := func(v ssa.Value) bool {
 		fv, _ := fieldOfLoad(canon(v))
 		return fv != nil && fv.Name() == "digest"
